@@ -80,7 +80,7 @@ def ch_pure(ctx) -> Channel:
         "non-trivial = irregular durations or start_number != 1; distinct by (layout, request)"))
     rng = ctx.rng("vodindex")
     lines, recs = [], []
-    for _ in range(ctx.scale(250, 3000)):
+    for _ in range(ctx.scale(250, 15000)):
         lay = segpure.gen_layout(rng, inside_h=False)
         if not lay.H2():
             continue
@@ -148,7 +148,7 @@ def ch_boxindex(ctx) -> Channel:
         ">= 3 segments; distinct by box layout"))
     rng = ctx.rng("boxindex")
     files = []
-    for i in range(ctx.scale(24, 200)):
+    for i in range(ctx.scale(24, 800)):
         n = rng.randrange(2, 9)
         kind = rng.choice(["video", "audio"])
         ts = 240 if kind == "video" else 48000
